@@ -43,7 +43,7 @@ SHAPES = {
     "S10": [["a", "optint", "dv"], ["b", "int", "dv"]],
     "S11": [["from_", "str", "req"], ["a", "bool", "dv"]],
     "S12": [["a", "int", "req"], ["b", "str", "req"], ["rest", "dictany", "df"]],
-    "S13": [["a", "int", "req"], ["r1", "dictany", "df"], ["r2", "dictany", "req"]],
+    "S13": [["a", "int", "req"], ["r2", "dictany", "req"], ["r1", "dictany", "df"]],
     "S14": [["a", "int", "req"], ["b", "listdv", "dv"]],
 }
 QUICK_SHAPES = ["S1", "S2", "S3", "S4", "S6", "S8", "S10", "S14"]
